@@ -325,6 +325,32 @@ let run_case (env : mdesc array) (envl : mdesc list) (line : string) : string op
            evs := e :: !evs
          done;
          Buffer.add_string b (if Ledger.monitor (List.rev !evs) then "L 1" else "L 0")
+       | "HTRACE" ->
+         (* the allocation-level model (Impl/Heap.v): the allocator events of unpack (+ free_unpacked) under a refusal plan,
+            printed as the C driver prints them for UNPACKT.  HTRACE <sizeof_message of each descriptor, comma separated> <d> <hex> <plan> *)
+         let sizes = Array.of_list (List.map int_of_string (String.split_on_char ',' (next t))) in
+         let d = next_int t in
+         let bytes = bytes_of_hex (next t) in
+         let plan = parse_plan (next t) in
+         let szmsg n = let i = int_of_nat n in if i < Array.length sizes then z_of_int sizes.(i) else z_of_int 0 in
+         let s0 = { Heap.h_next = nat_of_int 0; Heap.h_trace = [] } in
+         (* unpack first, so that U1/U0 can be placed between the two phases *)
+         let (o, s1) = Heap.h_unpack envl plan szmsg (nat_of_int (List.length bytes + 1)) (nat_of_int d) bytes s0 in
+         let pr evs =
+           List.iter (fun e -> match e with
+               | Heap.EvA (i, z) -> Buffer.add_string b (Printf.sprintf " a%d:%d" (int_of_nat i) (int_of_z z))
+               | Heap.EvR (i, z) -> Buffer.add_string b (Printf.sprintf " r%d:%d" (int_of_nat i) (int_of_z z))
+               | Heap.EvF i -> Buffer.add_string b (Printf.sprintf " f%d" (int_of_nat i))
+               | Heap.EvX -> Buffer.add_string b " x1") (List.rev evs) in
+         Buffer.add_string b "T";
+         pr s1.Heap.h_trace;
+         (match o with
+          | Some m ->
+            Buffer.add_string b " U1";
+            let ((), s2) = Heap.h_free envl m { Heap.h_next = s1.Heap.h_next; Heap.h_trace = [] } in
+            pr s2.Heap.h_trace;
+            Buffer.add_string b " F"
+          | None -> Buffer.add_string b " U0")
        | "DEFECT" ->
          (* model only: Spec/Defect.v, the C19 notion of "lacks something serialisation needs" *)
          let m = parse_msg t in
